@@ -116,7 +116,7 @@ def run(case):
         loc = dict(got['headers']).get('Location', '')
         u = url_parse(loc)
         from clastic.route import normalize_path
-        path = case['request']['path']
+        path = '/' + case['request']['path'].lstrip('/')
         want = normalize_path(path, True)
         if url_unquote(u.path) != want:
             problems.append('Location path %r does not decode to the canonical path %r' % (u.path, want))
@@ -140,6 +140,7 @@ def c06_oracle(case, app, got):
     from clastic.route import normalize_path
     req = case['request']
     path, method = req['path'], req.get('method', 'GET')
+    path = '/' + path.lstrip('/')      # werkzeug's request.path drops repeated leading slashes
     allowed = set()
     last_nb = None
     expect = None
@@ -153,7 +154,8 @@ def c06_oracle(case, app, got):
         if ms and method.upper() not in ms:
             allowed |= ms
             continue
-        mode = r.get('slash_mode') or case.get('slash_mode', 'redirect')
+        # routes added to an application inherit its slash mode (inherit_slashes defaults to True)
+        mode = case.get('slash_mode', 'redirect')
         if r['pattern'].endswith('/') and normalize_path(path, True) != path:
             if mode == 'redirect':
                 expect = ('redirect', i)
